@@ -243,3 +243,14 @@ Fixpoint dom_t (c0 : rt) (ch1 : list rt) {struct c0} : bool :=
   end.
 Definition dom_b (ch0 ch1 : list rt) : bool :=
   nodupb (keys_of ch0) && nodupb (keys_of ch1) && forallb (fun c0 => dom_t c0 ch1) ch0.
+
+(* executable forms of the extra hypotheses of the no-error theorem
+   (DiffMore.diff_no_error): sibling uniqueness everywhere in a forest, and
+   "equal hash only for equal data" over a list of nodes *)
+Definition sib_unique_b (f : forest) : bool :=
+  nodupb (keys_of f) && forallb (fun x => nodupb (keys_of (rch x))) (pre_f f).
+Definition hash_inj_b (l : list rt) : bool :=
+  forallb (fun x => forallb (fun y =>
+    implb (Z.eqb (i_hash (rinfo x)) (i_hash (rinfo y))) (Z.eqb (i_eqc (rinfo x)) (i_eqc (rinfo y)))) l) l.
+Definition no_raise_b (t0 t1 : forest) : bool :=
+  dom_b t0 t1 && sib_unique_b t1 && hash_inj_b (pre_f t0 ++ pre_f t1).
